@@ -58,6 +58,8 @@ def obligations(tier, kf):
     obs.append(Ob('e_edges', {'NFILES': 1, 'HASLIB': 0, 'HX': 0}, 900).mutant('make_link_drops_extra_deps'))
     obs.append(Ob('e_edges', {'NFILES': 1, 'HASLIB': 1, 'HX': 0}, 900).mutant('ninja_link_drops_libs'))
     obs.append(Ob('e_edges', {'NFILES': 1, 'HASLIB': 0, 'HX': 0}, 900).mutant('multitarget_no_stamp_deps'))
+    k = Ob('k_always_outdated', {}, 600, desc='always_outdated build steps with 1-2 outputs')
+    obs += [k, k.twin(), k.mutant('multitarget_phony_on_alias')]
     for p0 in range(12):
         if q:
             obs.append(Ob('d_defaults', {'NO': 3, 'P0': p0}, 900,
@@ -71,4 +73,5 @@ def obligations(tier, kf):
     obs.append(Ob('d_defaults', {'NO': 2}, 120).twin())
     obs.append(Ob('d_defaults', {'NO': 3, 'P0': 0}, 600).mutant('defaults_remove_from_explicit'))
     obs.append(Ob('d_defaults', {'NO': 3, 'P0': 0}, 600).mutant('all_rule_uses_fallback'))
+    obs.append(Ob('d_defaults', {'NO': 2}, 600).mutant('driver_test_stays_default'))
     return obs
